@@ -681,6 +681,22 @@ def debug_leaves(text, unit_name=None):
     return out
 
 
+def same_leaves(idl_leaves, parser_leaves):
+    """leaf lists equal, reading an all-digit token of 32+ characters in the Debug text (which `debug_leaves` has to call
+    a base58 key: such keys exist) as the decimal integer it may just as well be (u128 / i128 values of 32..39 digits without
+    a `0`) when the IDL side has an integer there"""
+    if len(idl_leaves) != len(parser_leaves):
+        return False
+    for a, b in zip(idl_leaves, parser_leaves):
+        a, b = tuple(a), tuple(b)
+        if a == b:
+            continue
+        if a[0] == "int" and b[0] == "key" and b[1].isdigit() and int(b[1]) == a[1]:
+            continue
+        return False
+    return True
+
+
 def strip_phantom(text):
     """remove `PhantomData<...>` (type arguments are not data)"""
     out, i = [], 0
